@@ -109,6 +109,37 @@ fn product(f: &[T], slots: usize) -> Vec<Vec<T>> {
     out
 }
 
+/// every sequence of up to 3 (thorough: 4) field entries over {named, reserved} x widths on both sides of every PkgLength
+/// class boundary: an entry's encoding must not depend on the entries before it
+pub fn field_sequences(ctx: &'static Ctx) -> u64 {
+    let widths: [usize; 8] = [1, 62, 63, 64, 192, 4095, 4096, 0x10_0000];
+    let mut alpha: Vec<(Option<[u8; 4]>, usize)> = vec![];
+    for (i, w) in widths.iter().enumerate() {
+        alpha.push((None, *w));
+        alpha.push((Some([b'F', b'A' + i as u8, b'_', b'0' + i as u8]), *w));
+    }
+    let depth = if ctx.quick() { 3 } else { 4 };
+    let mut seqs: Vec<Vec<(Option<[u8; 4]>, usize)>> = vec![vec![]];
+    let mut frontier = seqs.clone();
+    for _ in 0..depth {
+        let mut next = vec![];
+        for s in &frontier {
+            for a in &alpha {
+                let mut q = s.clone();
+                q.push(*a);
+                next.push(q);
+            }
+        }
+        seqs.extend(next.iter().cloned());
+        frontier = next;
+    }
+    let n = seqs.len() as u64;
+    seqs.par_iter().enumerate().for_each(|(i, es)| {
+        check(ctx, "Field", "entry sequences", &T::Field(if i % 2 == 0 { "FLD0".into() } else { "\\_SB_.FLD1".into() }, (i % 6) as u8, (i % 2) as u8, (i % 3) as u8, es.clone()));
+    });
+    n
+}
+
 pub fn run(ctx: &'static Ctx) {
     let f = gen::fillers();
     let quick = ctx.quick();
@@ -255,6 +286,9 @@ pub fn run(ctx: &'static Ctx) {
             n4.fetch_add(1, Ordering::Relaxed);
         }
     });
+    let nfs = field_sequences(ctx);
+    n4.fetch_add(nfs, Ordering::Relaxed);
+    ctx.engine("E4.field-entry-sequences", json!({"sequences": nfs, "entry_alphabet": "named/reserved x widths {1,62,63,64,192,4095,4096,2^20}", "max_length": if quick { 3 } else { 4 }}));
     ctx.engine("E4.sizes", json!({"kinds": wr.len() + 2, "pads": pads.len(), "programs": n4.load(Ordering::Relaxed)}));
     let total = n1.load(Ordering::Relaxed) + n2.load(Ordering::Relaxed) + n3.load(Ordering::Relaxed) + n4.load(Ordering::Relaxed);
     ctx.st(total);
